@@ -295,6 +295,31 @@ pub fn run(cfg: &Cfg, out: &mut Out) {
             emit(out, s, 0, &[SkipBack(1), a]);
         }
     }
+    // stress: originals with a long run (around the 16/32/64/128-byte block sizes) of one
+    // character at the start or at the end; every operation alone and followed by a probe.
+    // Block-wise fast paths in trimming / skipping / digit scanning only show on these.
+    {
+        let mut sops: Vec<Op> = allops.clone();
+        sops.extend([Skip(31), Skip(32), Skip(33), Skip(64), SkipBack(31), SkipBack(32), SkipBack(33), SkipBack(64),
+                     TrimStartMatches(" "), TrimEndMatches(" "), TrimMatches("0"), StripPrefix("0"), Split(" "), RSplit("0")]);
+        let probes: &[Op] = if cfg.thorough { &[Skip(1), SkipBack(1), ParseU8, StripPrefix("a"), TrimStart, FindSkip("-"), ParseI32] } else { &[Skip(1), SkipBack(1), ParseU8, StripPrefix("a")] };
+        let ns: &[usize] = if cfg.thorough { &[15, 16, 17, 31, 32, 33, 63, 64, 65, 96, 127, 128, 129, 200] } else { &[31, 32, 33, 64, 65] };
+        for c in [' ', '0', 'a', '-', 'é', '\t'] {
+            for &n in ns {
+                let run_: String = std::iter::repeat(c).take(n).collect();
+                for tail in ["", "a", "256", "x y", "-b", "99999999999999999999"] {
+                    for s in [format!("{}{}", run_, tail), format!("{}{}", tail, run_)] {
+                        for (i, &a) in sops.iter().enumerate() {
+                            emit(out, &s, if i % 2 == 0 { 0 } else { 7 }, &[a]);
+                            for &b in probes {
+                                emit(out, &s, if i % 2 == 0 { 1000 } else { 0 }, &[a, b]);
+                            }
+                        }
+                    }
+                }
+            }
+        }
+    }
     // depth 3 and long sequences, seeded random
     let mut rng = Rng::new(cfg.seed ^ 0x13);
     let n3 = if cfg.thorough { 400_000 } else { 40_000 };
